@@ -30,6 +30,10 @@ def main(tier):
     n_mod = 400 if thorough else 60
     mods = cc.gen_modules(rng, n_mod, dict(max_depth=4, max_len=4, n_funcs=3))
     mods += cc.gen_modules(rng, n_mod // 2, dict(max_depth=4, max_len=3, n_funcs=3, constructs=['simple', 'return', 'if', 'for', 'try', 'with', 'def', 'class', 'def', 'class']))
+    # decorated and async definitions (multi-line decorators included): the reported span starts at the def/class line
+    for m in mods[len(mods) // 2:]:
+        m["ast"], m["lines"] = pygen.layout(m["ast"], deco_rng=rng)
+        m["decorated"] = True
     for _ in range(3):
         a, lines = pygen.layout(dup_module(rng))
         mods.append({"ast": a, "lines": lines, "dup": True})
@@ -149,4 +153,4 @@ def main(tier):
     })
     ck.trusted += ["Coq 8.16.1 kernel; vm_compute", "harness/pygen.py layout, cross-checked against python3 ast.walk on every module",
                    "hand-written model Cfg/Defs.v of the BuildAll registry and lcom.collectClasses"]
-    ck.finish(assumptions=["decorators are not generated (layout has none); async defs are not generated"])
+    ck.finish(assumptions=["half of the modules carry random decorators (one of them spanning two lines) and async defs"])
